@@ -113,8 +113,10 @@ fn days_event(n: i32) -> Value {
 }
 fn cmp_event(a: NaiveDate, b: NaiveDate) -> Value {
     let c = |o: std::cmp::Ordering| o as i8 as i64;
-    ev("cmp", json!({"a": dn(a), "b": dn(b)}), || json!({"c": c(a.cmp(&b)), "ic": c(a.iso_week().cmp(&b.iso_week())),
-           "eq": a == b, "ieq": a.iso_week() == b.iso_week()}))
+    let h = |x: &dyn Fn(&mut std::collections::hash_map::DefaultHasher)| { use std::hash::Hasher; let mut s = std::collections::hash_map::DefaultHasher::new(); x(&mut s); s.finish() };
+    ev("cmp", json!({"a": dn(a), "b": dn(b)}), || { use std::hash::Hash; json!({"c": c(a.cmp(&b)), "ic": c(a.iso_week().cmp(&b.iso_week())),
+           "eq": a == b, "ieq": a.iso_week() == b.iso_week(),
+           "hasheq": h(&|s| a.hash(s)) == h(&|s| b.hash(s)), "ihasheq": h(&|s| a.iso_week().hash(s)) == h(&|s| b.iso_week().hash(s))}) })
 }
 
 pub fn run(ctx: &Ctx) -> Value {
@@ -216,6 +218,14 @@ pub fn run(ctx: &Ctx) -> Value {
         let b = if i % 3 == 0 { a.succ_opt().unwrap_or(a) } else if i % 3 == 1 { mk_date((dn(a) + rng.range(-400, 400)).clamp(MIN_DAY, MAX_DAY)) } else { mk_date(rng.range(MIN_DAY, MAX_DAY)) };
         tw.emit(cmp_event(a, b));
     }
+    // all pairs within one week around every 1 January of a 400-year cycle: the same ISO week may span two calendar years, and
+    // the dates of one ISO week must have EQUAL (==, cmp, hash) week values whichever route produced them
+    for y in 1999..2400 {
+        if ctx.quick() && y % 3 != 0 && y % 400 > 40 { continue; }
+        let j1 = days_from_civil(y, 1, 1);
+        for a in j1 - 3..=j1 + 3 { for b in a..=(a + 6).min(j1 + 6) { tw.emit(cmp_event(mk_date(a), mk_date(b))); } }
+    }
+    { let (a, b) = (mk_date(MAX_DAY), mk_date(MAX_DAY - 1)); tw.emit(cmp_event(a, b)); tw.emit(cmp_event(b, a)); }
     for n in [MIN_DAY, MIN_DAY + 1, MAX_DAY - 1, MAX_DAY, 0, 1] {
         tw.emit(cmp_event(mk_date(n), mk_date((n + 1).min(MAX_DAY))));
         tw.emit(cmp_event(mk_date(n), mk_date(n)));
